@@ -230,6 +230,58 @@ func c09Workloads(perProbe int) []c09Workload {
 			}
 			return out
 		}},
+		{"tcp-options", func(e *simEnv, p *refmatch.Probe, r *rand.Rand) [][]byte {
+			// segments ON the probed connection (right addresses and ports, so they get as far as option parsing) whose
+			// TCP options are hostile: SACK options whose data is not a whole number of 8-byte blocks (0..17 and
+			// 8k+1..8k+7 bytes), several SACK options, timestamp options of every length, unknown kinds, length bytes
+			// 0/1/beyond the header. Each comes (a) behind a well-formed SACK block whose left edge lies far outside the
+			// TTL window - the frame can then never be a reply, whatever the parser makes of the rest - and (b) alone.
+			v := e.spec.V
+			if v.V6 || (v.Proto != "sack" && v.Proto != "syn") {
+				return nil
+			}
+			var hostile [][]byte
+			for n := 0; n <= 35; n++ { // SACK option with n data bytes
+				o := make([]byte, 2+n)
+				o[0], o[1] = 5, byte(2+n)
+				for i := 2; i < len(o); i++ {
+					o[i] = byte(r.Intn(256))
+				}
+				if n >= 4 && r.Intn(2) == 0 {
+					binary.BigEndian.PutUint32(o[2:], e.isn+uint32(p.TTL)+700) // first edge outside the window too
+				}
+				hostile = append(hostile, o)
+			}
+			for l := 0; l <= 12; l++ { // timestamp option with every length byte
+				o := make([]byte, 12)
+				o[0], o[1] = 8, byte(l)
+				hostile = append(hostile, o[:max(2, min(l, 12))])
+			}
+			for _, k := range []byte{2, 3, 4, 5, 8, 30, 34, 253, 254} {
+				for _, l := range []byte{0, 1, 2, 3, 39, 255} {
+					hostile = append(hostile, []byte{k, l, 0xaa, 0xbb})
+				}
+			}
+			anchor := wirefmt.OptSack([][2]uint32{{e.isn + 600, e.isn + 601}})
+			flags := uint8(wirefmt.TCPAck)
+			var out [][]byte
+			mk := func(lead, h []byte) []byte {
+				opts := append(append([]byte(nil), lead...), h...)
+				if len(opts) > 40 {
+					opts = opts[:40]
+				}
+				return gen.TCPReply(e.spec.Target, e.local, e.spec.Port, e.lport, 5, p.Seq+1, flags, opts, nil, nil)
+			}
+			for _, h := range hostile {
+				out = append(out, mk(anchor, h))
+			}
+			// (b) alone: on a SACK run the first such segment without a whole block legitimately ends the run (the
+			// one allowed exception), so only a few, chosen by the case's PRNG, and last
+			for k := 0; k < 3; k++ {
+				out = append(out, mk([]byte{1, 1}, hostile[r.Intn(len(hostile))]))
+			}
+			return out
+		}},
 		{"random", func(e *simEnv, p *refmatch.Probe, r *rand.Rand) [][]byte {
 			var out [][]byte
 			for i := 0; i < perProbe; i++ {
@@ -255,7 +307,7 @@ func checkC09() fw.Check {
 	return fw.Check{
 		Prop:  "C09",
 		Level: "exploration",
-		Rule: "one case = (variant, workload in {every truncation length of every genuine reply form, structure-aware mutation (bit/byte flips, IHL/version nibbles, total/payload length lies, protocol sweep, TCP data offset, option/RFC4884 length bytes, fragments, IPv6 extension chains, oversize frames, garbage payloads), random byte strings 0..2048}, window, chunk): the frames are injected before the first send, around every probe, during the SACK handshake and after the destination answered; oracle = the run must not abort or crash, every hop must stay justified by the reference matcher, and when the reference matcher classifies every injected frame as non-matching the result must equal the noise-free twin run exactly (addresses, destination flag, RTT). " +
+		Rule: "one case = (variant, workload in {every truncation length of every genuine reply form, segments on the probed connection with hostile TCP options (SACK options that are not whole blocks, timestamp options of every length, unknown kinds, lying length bytes), structure-aware mutation (bit/byte flips, IHL/version nibbles, total/payload length lies, protocol sweep, TCP data offset, option/RFC4884 length bytes, fragments, IPv6 extension chains, oversize frames, garbage payloads), random byte strings 0..2048}, window, chunk): the frames are injected before the first send, around every probe, during the SACK handshake and after the destination answered; oracle = the run must not abort or crash, every hop must stay justified by the reference matcher, and when the reference matcher classifies every injected frame as non-matching the result must equal the noise-free twin run exactly (addresses, destination flag, RTT). " +
 			"distinct_nontrivial counts distinct (variant, workload, ref-kind) with injected frames read by the tool; counters give frames injected/read and twin-equal runs",
 		Workers:       16,
 		MinNontrivial: 30,
